@@ -33,6 +33,7 @@ type walkNode struct {
 	Parent int    `json:"parent"`
 	Field  int    `json:"field"`
 	Name   string `json:"name"` // Type@ParentType.path (diagnostics)
+	Cls    int    `json:"cls"`  // smallest id of a node Inspect cannot tell from this one (value nodes: same type, equal value)
 }
 
 type walkResult struct {
@@ -137,7 +138,16 @@ func inspectTree(root ast.Node, res *walkResult) {
 			}
 			field = f
 		}
-		res.Nodes = append(res.Nodes, walkNode{ID: i, Ty: ty, Parent: r.Parent, Field: field, Name: r.Type + "@" + r.Path})
+		cls := i
+		if r.Kind == "val" {
+			for j := 0; j < i; j++ {
+				if rs[j].Kind == "val" && rs[j].Type == r.Type && reflect.DeepEqual(rs[j].Val, r.Val) {
+					cls = j
+					break
+				}
+			}
+		}
+		res.Nodes = append(res.Nodes, walkNode{ID: i, Ty: ty, Parent: r.Parent, Field: field, Name: r.Type + "@" + r.Path, Cls: cls})
 		if matched[i] == 0 {
 			res.Missed = append(res.Missed, r.Path+" ("+r.Type+")")
 		}
